@@ -27,7 +27,7 @@ func zzNewEngine(disc ports.DiscoveryService, sel domain.EndpointSelector, stats
 		for host := range world.scripts {
 			_ = host
 		}
-		for _, name := range []string{"a", "b", "c"} {
+		for _, name := range []string{"a", "b", "c", "x"} {
 			svc.getOrCreateEndpointPool(name).transport.RegisterProtocol("zz", world)
 		}
 	}
